@@ -436,6 +436,8 @@ class PropertyCheck:
         # 1. oracle failures are violations with a concrete failing input
         seen = set()
         for case, msg, kind in self.violations:
+            if len(reported) >= 4:
+                break
             try:
                 small = self.shrink(case, lambda c: bool(self.oracle_fails(c)))
                 smsg = self.oracle_fails(small) or msg
